@@ -1,4 +1,5 @@
 import Verif.Impl.Report
+import Verif.Impl.Labels
 import Verif.Generated.Misc
 import Driver.Text
 /-  `report`, `idx`, `idxenvelope` verbs (properties C14 and C15). -/
@@ -30,11 +31,46 @@ def parseAddrLine (l : List Char) : Option (Bool × Nat × Nat × Nat) :=
     | _ => none
   | _ => none
 
+/-- The label file of an end-to-end request (`acme:<hex>` / `64tass:<hex>`, `-` = none) read by the label grammar of its
+    format (`Impl.parseAcme` / `Impl.parseTass`, the recognisers C19's theorems are about: hex with `$`, decimal for
+    64tass, optional trailing comment): the labels per program offset in the notation of the request's label section,
+    or `none` when the file is not a list of well-formed definitions. -/
+def labelsOfFile (fileS : String) (start n : Nat) : Option String :=
+  match fileS.splitOn ":" with
+  | [kind, h] =>
+    if kind != "acme" && kind != "64tass" then none else
+    match unhex h with
+    | none => none
+    | some bs =>
+      let parse := if kind == "64tass" then parseTass else parseAcme
+      match parseFile parse true (fun l => l.length ≥ 65536) (splitLines (bs.map Char.ofNat)) with
+      | none => none
+      | some defs =>
+        some (";".intercalate ((List.range n).filterMap fun i =>
+          match labelsOf defs (start + i) with
+          | [] => none
+          | ls => some (s!"{i}:" ++ ",".intercalate (ls.map String.ofList))))
+  | _ => none
+
 def handleReport (line : String) : String :=
   match line.splitOn " => " with
   | [req, res] =>
-    match req.splitOn " | ", words res with
+    -- end-to-end requests carry the label file itself as a fifth section: what the request's label section says
+    -- must be what the file defines under the grammar of its format (a request that is not even that is malformed)
+    let secs := req.splitOn " | "
+    let fileOk : Bool := match secs with
+      | [hd, rawsS, _, labS, fileS] =>
+        fileS == "-" ||
+        (match words hd with
+         | [_, _, _, startS] => (match parseHex startS with
+           | some start => labelsOfFile fileS start (rawsS.splitOn ",").length == some labS
+           | none => false)
+         | _ => false)
+      | _ => true
+    if !fileOk then "bad" else
+    match secs.take 4, words res with
     | [hd, rawsS, valsS, labS], [cutS, outS] =>
+      if secs.length > 5 then "bad" else
       match words hd with
       | [_, strategy, prcntS, startS] =>
         match prcntS.toNat?, parseHex startS, unhex valsS with
